@@ -5,11 +5,13 @@ set -eu
 . "$(dirname "${BASH_SOURCE[0]}")/env.sh"
 cd "$VERIF_DIR/harness"
 MODFILE=$(verif_modfile)
-go build -modfile="$MODFILE" -tags verif -o "$VERIF_BUILD/vcheck" ./cmd/vcheck
-"$VERIF_BUILD/vcheck" -list >/dev/null
 (cd "$VERIF_DIR/vinstr" && go build -o "$VERIF_BUILD/vinstr" .)
+"$VERIF_DIR/bin/instrument.sh" pools
+go build -modfile="$MODFILE" -overlay "$VERIF_BUILD/instr-pools/overlay.json" -tags "verif verifpools" -o "$VERIF_BUILD/vcheck" ./cmd/vcheck
+"$VERIF_BUILD/vcheck" -list >/dev/null
 "$VERIF_DIR/bin/instrument.sh"
 go build -modfile="$MODFILE" -overlay "$VERIF_BUILD/instr/overlay.json" -tags "verif verifinstr" -o "$VERIF_BUILD/vcheck-instr" ./cmd/vcheck
 # instrumenter self-check: behaviour preserved on everything the repository's suite can see
 (cd "$VERIF_REPO" && go test -overlay "$VERIF_BUILD/instr/overlay.json" -vet=off -count=1 . >"$VERIF_BUILD/instr-selftest.log" 2>&1) || { echo "instrumented overlay fails the repository's tests:"; tail -20 "$VERIF_BUILD/instr-selftest.log"; exit 1; }
+(cd "$VERIF_REPO" && go test -overlay "$VERIF_BUILD/instr-pools/overlay.json" -vet=off -count=1 . >"$VERIF_BUILD/instr-pools-selftest.log" 2>&1) || { echo "pools-only overlay fails the repository's tests:"; tail -20 "$VERIF_BUILD/instr-pools-selftest.log"; exit 1; }
 echo "setup ok ($(cat "$VERIF_BUILD/instr.log"))"
